@@ -50,6 +50,8 @@ def srt_read_skeleton(c):
         log.append(st)
         return _value(st)
     c.interp.contracts["pycaption.srt:SRTReader._srttomicro"] = stub
+    from pyvc.verify import require_callees
+    require_callees(c.interp.contracts)      # (a renamed callee makes this contract undecided, never a violation)
     kw = {} if lang is None else {"lang": lang}
     want_lang = lang or "en-US"
     for turn in (1, 2):
@@ -111,6 +113,8 @@ def microdvd_read_skeleton(c):
         log.append((x["framenum"], float(x["fps"])))
         return int(x["framenum"]) * 1000 + int(round(float(x["fps"])))
     c.interp.contracts["pycaption.microdvd:MicroDVDReader._framestomicro"] = stub
+    from pyvc.verify import require_callees
+    require_callees(c.interp.contracts)      # (a renamed callee makes this contract undecided, never a violation)
     kw = {} if lang is None else {"lang": lang}
     want_lang = lang or "und"
     val = lambda f_, r_: f_ * 1000 + int(round(r_))
@@ -175,6 +179,8 @@ def webvtt_read_skeleton(c, clause="times"):
         return val(x["line"]), val(x["line"]) + 500, ("layout of", x["line"])
     c.interp.contracts["pycaption.webvtt:WebVTTReader._parse_timing_line"] = timing_stub
     c.interp.contracts["pycaption.webvtt:WebVTTReader._decode"] = lambda interp, fn, a, kw: "<" + N(fn, a, kw)["s"] + ">"
+    from pyvc.verify import require_callees
+    require_callees(c.interp.contracts)      # (a renamed callee makes this contract undecided, never a violation)
     kw = {} if lang is None else {"lang": lang}
     want_lang = lang or "en-US"
     for turn in (1, 2):
@@ -285,6 +291,8 @@ def dfxp_read_skeleton(c):
         "pycaption.dfxp.base:DFXPReader._get_dfxp_parser_class": lambda interp, fn, a, kw: (lambda content, **kw_: root),
         "pycaption.dfxp.base:DFXPReader._convert_p_tag_to_caption": h_p,
         "pycaption.dfxp.base:DFXPReader._convert_style": lambda interp, fn, a, kw: {"style of": N(fn, a, kw)["tag"].attrs.get("xml:id")}})
+    from pyvc.verify import require_callees
+    require_callees(c.interp.contracts)      # (a renamed callee makes this contract undecided, never a violation)
     # expected, from the statement: nearest enclosing div decides the language
     want, order = {}, []
     for p_ in root.find_all("p"):
@@ -354,6 +362,8 @@ def sami_read_skeleton(c):
         q + "_get_xml_parser_class": lambda interp, fn, a, kw: (lambda content, **kw_: (log.append(("xml", content)), soup)[1]),
         q + "_build_layout": h_layout, q + "_translate_lang": h_lang,
         q + "_translate_parsed_style": lambda interp, fn, a, kw: N(fn, a, kw)["styles"]})
+    from pyvc.verify import require_callees
+    require_callees(c.interp.contracts)      # (a renamed callee makes this contract undecided, never a violation)
     rd = c.new(SR, line=[], first_alignment=None)
     glob = ("layout", "p", None)
     for turn in (1, 2):
